@@ -37,7 +37,7 @@ inline double as_number(const std::string& s, double nan=NAN) {
     const char* p = result.ptr + 1;
     while (*p >= '0' && *p <= '9')
       ++p;
-    if (*p == ')')
+    if (*p == ')' && p != result.ptr + 1)  // s.u. must have digits: "1.5()" is not a number
       result.ptr = p + 1;
   }
   return result.ptr == end ? d : nan;
